@@ -29,7 +29,7 @@ CLAIMS = {
  "C38": ("§5 C38", "Kernel only: filedesc.unmarshalFeatureSet/unmarshalGoFeature resolve every feature flag to the last explicit setting in the options bytes (<=3 settings of features 1..6 with enum values 0..3, optional Go-features block; enum numbers written out from descriptor.proto) else to the arbitrary parent's value; getFeaturesFor picks the defaults of the greatest known edition not above the requested one on arbitrary sorted tables of 1..3 editions. protodesc's resolution (proto.GetExtension) and 'proto2/proto3 file == editions translation' at runtime are outside."),
  "C39": ("§5 C39", "defval Marshal/Unmarshal round trip: bytes defaults of every content <=3 (4) bytes in both formats (real text.UnmarshalString underneath, exact Sprintf octal model), bool and string defaults. Integer kinds (strconv.FormatInt/ParseInt digit loops: solver unknown within budget, tried and dropped), floats and enums by name are outside."),
  "C21": ("§5 C21", "internal/encoding/json token level: parseNumber vs the RFC 8259 number grammar on every byte string <=6 (8 thorough) in both directions (accepted => grammatical and delimiter-terminated; grammatical+delimiter => accepted whole), parseString vs an RFC 8259 string reference incl. decoded value on quote+<=5 (7) bytes, on \\uXXXX escapes with symbolic digits and on high-surrogate escapes followed by two free bytes and four hex digits (pairs, lone and malformed surrogates), null/true/false matching, and Decoder.Read to EOF on every document <=4 (5) bytes: accepted => the reference JSON grammar accepts. Message-level protojson output is outside."),
- "C23": ("§5 C23", "protojson.parseDuration vs a three-valued reference recogniser of the documented Duration grammar with exact (seconds,nanos) incl. sign rule on every string <=6 (8 thorough) bytes, plus structured long literals (sign, <=13 integer digits, none/0/1/9/10 fractional digits, all digits symbolic; cvc5 integer back end) and integer parts around 2^63/2^64 (concrete prefix + 3 symbolic digits: fits-int64 <=> accepted). FieldMask JSON reversibility kernel (JSONCamelCase/JSONSnakeCase) via C42's harness. Timestamp text (time.Parse), Struct/Value/Any and the range check in unmarshalDuration are outside."),
+ "C23": ("§5 C23", "protojson.parseDuration vs a three-valued reference recogniser of the documented Duration grammar with exact (seconds,nanos) incl. sign rule on every string <=6 (8 thorough) bytes, plus structured long literals (sign, <=13 integer digits, none/0/1/9/10 fractional digits, all digits symbolic; cvc5 integer back end) and integer parts around 2^63/2^64 (concrete prefix + 3 symbolic digits: fits-int64 <=> accepted). unmarshalDuration's +-315576000000 range check through a model message (quoted literals just below/at/above the limit, two symbolic digits): out of range <=> rejected, stored (seconds,nanos) exact. FieldMask JSON reversibility kernel (JSONCamelCase/JSONSnakeCase) via C42's harness. Timestamp text (time.Parse), Struct/Value/Any, wrappers and the marshal side (fmt formatting) are outside."),
  "C25": ("§5 C25", "text.appendString -> UnmarshalString round trip for every byte string <=2 (3 thorough) bytes and for every valid 3-byte and 4-byte UTF-8 sequence (all BMP and supplementary code points) in both outputASCII modes (byte-exact, ASCII mode emits only 0x20..0x7e), and parseString totality on quote+<=4 (5) arbitrary bytes with either quote. Strings longer than the bound are outside."),
  "C30": ("§5 C30", "protoreflect.Value.Equal on scalar Values of the 10 scalar kinds with full-width symbolic contents (floats through the SMT FloatingPoint theory, strings/bytes <=2 bytes): reflexive incl. NaN, symmetric, transitive, different kinds unequal, nil bytes == empty bytes; list equality element-wise on lists <=2. Message/map equality, equalUnknown (reflect.DeepEqual) and protocmp are outside."),
  "C35": ("§5 C35", "filedesc.FieldRanges/EnumRanges.CheckValid vs a reference (valid bounds, non-empty, pairwise disjoint, order independent) on <=3 (4) ranges with all-int32 bounds, CheckOverlap on two valid lists, Names.CheckValid vs duplicate detection, protoreflect.Name/FullName.IsValid vs the identifier grammar on all strings <=5 (6). NewFile as a whole and the other validators are outside."),
